@@ -59,11 +59,10 @@ def register_stub_plugins():
     if _STUBS_DONE:
         return
     from pandora import optimization, semantic_segmentation
-    from pandora.margins.descriptors import UniformMargins
 
     @optimization.AbstractOptimization.register_subclass("stub_opt")
     class StubOpt(optimization.AbstractOptimization):  # pylint: disable=unused-variable
-        margins = UniformMargins(40)
+        # margins are inherited from AbstractOptimization on purpose
 
         def __init__(self, _img, **cfg):
             if cfg.get("bad"):
